@@ -393,19 +393,44 @@ func (s *machine) actPut(t *rapid.T, putNew bool) {
 	if putNew {
 		name = "PutNew"
 	}
+	// expiry-setting through the interface's options: every record saved through such an interface gets the expiry,
+	// whatever the record brought along (and also when it is stored as new). Without a cache only: a write through
+	// another interface is not seen by an interface cache (documented).
+	db, alwaysAbs, alwaysRel := s.db, int64(0), int64(0)
+	if s.cfg.cache == cacheNone && rapid.IntRange(0, 5).Draw(t, "always") == 0 {
+		switch rapid.IntRange(0, 2).Draw(t, "alwaysKind") {
+		case 0:
+			alwaysAbs = rapid.SampledFrom([]int64{farFuture1, farFuture2}).Draw(t, "alwaysAbsFuture")
+		case 1:
+			alwaysAbs = rapid.SampledFrom([]int64{farPast1, farPast2}).Draw(t, "alwaysAbsPast")
+		default:
+			alwaysRel = rapid.SampledFrom([]int64{relTTLMin, 86400}).Draw(t, "alwaysRel")
+		}
+		db = database.NewInterface(&database.Options{Local: true, Internal: true, AlwaysSetAbsoluteExpiry: alwaysAbs, AlwaysSetRelativateExpiry: alwaysRel})
+		name += fmt.Sprintf(" via an interface with AlwaysSetAbsoluteExpiry=%d AlwaysSetRelativateExpiry=%d:", alwaysAbs, alwaysRel)
+	}
 	s.logf("%s %s %s meta=%s", name, key, v, p)
 	t0 := nowUnix()
 	var err error
 	if putNew {
-		err = s.db.PutNew(r)
+		err = db.PutNew(r)
 	} else {
-		err = s.db.Put(r)
+		err = db.Put(r)
 	}
 	t1 := nowUnix()
 	if err != nil {
 		s.fail(t, "%s(%s) failed: %v", name, key, err)
 	}
-	s.noteWrite(key, storedFresh(v, p, t0, t1, putNew))
+	m := storedFresh(v, p, t0, t1, putNew)
+	switch {
+	case alwaysAbs != 0:
+		m.relTTL = 0
+		m.expires = []ival{{alwaysAbs, alwaysAbs}}
+	case alwaysRel != 0:
+		m.relTTL = alwaysRel
+		m.expires = []ival{{t0 + alwaysRel, t1 + alwaysRel}}
+	}
+	s.noteWrite(key, m)
 }
 
 // actUpdate is the read-modify-write cycle: Get, change the data (and sometimes the
@@ -901,9 +926,32 @@ func (s *machine) actPurge(t *rapid.T) {
 
 func (s *machine) actMaintain(t *rapid.T) {
 	s.needClean(t)
-	s.logf("MaintainRecordStates")
-	if err := database.MaintainRecordStates(context.Background()); err != nil && !errors.Is(err, database.ErrNotImplemented) {
-		s.fail(t, "MaintainRecordStates failed: %v", err)
+	// the three maintenance entry points; Maintain and MaintainThorough are the storage's own housekeeping
+	switch which := rapid.SampledFrom([]string{"MaintainRecordStates", "MaintainRecordStates", "Maintain", "MaintainThorough", "all"}).Draw(t, "maintenance"); which {
+	case "Maintain":
+		s.logf("Maintain")
+		if err := database.Maintain(context.Background()); err != nil && !errors.Is(err, database.ErrNotImplemented) {
+			s.fail(t, "Maintain failed: %v", err)
+		}
+	case "MaintainThorough":
+		s.logf("MaintainThorough")
+		if err := database.MaintainThorough(context.Background()); err != nil && !errors.Is(err, database.ErrNotImplemented) {
+			s.fail(t, "MaintainThorough failed: %v", err)
+		}
+	default:
+		if which == "all" {
+			s.logf("Maintain, MaintainThorough")
+			if err := database.Maintain(context.Background()); err != nil && !errors.Is(err, database.ErrNotImplemented) {
+				s.fail(t, "Maintain failed: %v", err)
+			}
+			if err := database.MaintainThorough(context.Background()); err != nil && !errors.Is(err, database.ErrNotImplemented) {
+				s.fail(t, "MaintainThorough failed: %v", err)
+			}
+		}
+		s.logf("MaintainRecordStates")
+		if err := database.MaintainRecordStates(context.Background()); err != nil && !errors.Is(err, database.ErrNotImplemented) {
+			s.fail(t, "MaintainRecordStates failed: %v", err)
+		}
 	}
 	// physically removed only what is deleted or expired: every visible record is
 	// still in the raw storage
